@@ -325,3 +325,20 @@ PROPS["C20"] = dict(
                  "closures do not panic (a panic inside apply poisons the mutex; every later apply panics by design)",
                  "real OS interleavings are sampled, not enumerated; loom enumerates only the small configurations listed"],
 )
+
+PROPS["C04"] = dict(
+    modules=["Essential.Props.C04"],
+    gen=gen_check.c04_cases,
+    model_is_spec=True, abort_is_violation=True,
+    nontrivial=lambda body, out: out.startswith("ok") or out.startswith("err") or len(out) == 64,
+    exhaustive="all orderings of every generated set of <= 3 solutions (5 orderings of 4-solution sets)",
+    rule="sets of 1..4 solutions over two contracts, every solution with its own predicate (a first-pass leaf that may compute a "
+         "mutation, a deferred leaf that reads a post-state key and reports it), shared and distinct contracts, overlapping keys; "
+         "forced clashes declared/declared (same and different predicates), declared/computed in both index orders, computed/computed; "
+         "every ordering is run as check_set, content_addr and two-pass on model and implementation, and the o_perm oracle compares "
+         "the orderings on the implementation: equal content address, equal check_set verdict, accepted => at most one mutation per "
+         "(contract, key); same two-pass verdict, gas and per-solution mutations; the returned set again has unique slots; "
+         "non-trivial = distinct case returning a value or typed error",
+    trusted=CHECK_TRUSTED,
+    assumptions=["which solution index is blamed for a duplicate computed mutation depends on the order (the property fixes the verdict, gas and mutations, not the blamed index)"],
+)
